@@ -13,7 +13,7 @@ func init() {
 }
 
 func rulesC01(c *Ctx, r *Report) {
-	r.explain("Decides: (G1) MarshalText's bytes come only from Write into a fresh buffer and are returned unsliced — 'MarshalText and Write produce identical bytes'; (FMT-CONST) every format string of the writer is a constant, so names and sequences are only ever operands; (W-HDR) the first write is unconditional, '>' + name + newline — one name line per record, also for empty names; (W80) sequence lines are f.Sequence[i : min(i+C, len)] for i = 0, C, 2C, … with the same constant C ≤ 80 in the step, the window and MarshalText's length formula, each followed by one newline; (PASS-ALL) the iterator layers between read() and the consumer hand on every record; (G5, FSM) the body of the reader's byte loop is evaluated as a finite automaton over all 4 states x 256 bytes: LF and CR have identical effects in every state, and the whole transition function equals the FASTA layout ('>' at a line start ends the record, line breaks end lines, other bytes go to the name in the name line and to the sequence elsewhere). Not decided: decode(encode(x)) = x; that the reader joins lines and handles '>' after a line break correctly; layout independence beyond the CR/LF sets. Added rules: (FSM) the reader's loop as an automaton — all 4 x 256 (state, byte) transitions match the FASTA layout, and what is returned after the loop depends only on the read error and the read-anything flag; (A6-SCHED) nothing consults Buffered(); (LINE-WHOLE) no ReadLine with discarded isPrefix, no ReadSlice without ErrBufferFull handling. Entry points (shared with C06/C18, restricted to this package): (FD) File(path) opens path with aio.Open, yields the open error and otherwise ranges over Reader on the opened bytes, passing every item on; (A6) the stream only enters a buffering reader, never a direct Read; (NIL-HANDLE) the handle is touched only behind the error check.")
+	r.explain("Decides: (G1) MarshalText's bytes come only from Write into a fresh buffer and are returned unsliced — 'MarshalText and Write produce identical bytes'; (FMT-CONST) every format string of the writer is a constant, so names and sequences are only ever operands; (W-HDR) the first write is unconditional, '>' + name + newline — one name line per record, also for empty names; (W80) sequence lines are f.Sequence[i : min(i+C, len)] for i = 0, C, 2C, … with the same constant C ≤ 80 in the step, the window and MarshalText's length formula, each followed by one newline; (PASS-ALL) the iterator layers between read() and the consumer hand on every record; (G5, FSM) the body of the reader's byte loop is evaluated as a finite automaton over all 4 states x 256 bytes: LF and CR have identical effects in every state, and the whole transition function equals the FASTA layout ('>' at a line start ends the record, line breaks end lines, other bytes go to the name in the name line and to the sequence elsewhere). Not decided: decode(encode(x)) = x; that the reader joins lines and handles '>' after a line break correctly; layout independence beyond the CR/LF sets. Added rules: (FSM) the reader's loop as an automaton — all 4 x 256 (state, byte) transitions match the FASTA layout, and what is returned after the loop depends only on the read error and the read-anything flag; (A6-SCHED) nothing consults Buffered(); (LINE-WHOLE) no ReadLine with discarded isPrefix, no ReadSlice without ErrBufferFull handling. Entry points (shared with C06/C18, restricted to this package): (FD) File(path) opens path with aio.Open, yields the open error and otherwise ranges over Reader on the opened bytes, passing every item on; (A6) the stream only enters a buffering reader, never a direct Read; (NIL-HANDLE) the handle is touched only behind the error check. (LAYER) no decompressor or transcoder is constructed in the codec packages: Reader decodes the stream's own bytes whatever they look like.")
 	r.assume("fmt's %s writes a []byte operand verbatim")
 	ruleG1(c, r, "formats/fasta", "Fasta")
 	rulesEntryPoints(c, r, "formats/fasta")
